@@ -15,7 +15,10 @@ git -C /repo worktree remove --force $WT
 echo "CONFIRM:$res"
 cd /verif
 git -C /repo apply $D/patch.diff || { echo "apply to /repo failed"; exit 3; }
+cp evidence/$P.json /tmp/seed.evidence.$P.json 2>/dev/null
 bin/check $P $T > /tmp/seed.check.log 2>&1; rc=$?
 git -C /repo checkout -- .
+# evidence is from clean-tree runs only: put the file of the last clean run back
+cp /tmp/seed.evidence.$P.json evidence/$P.json 2>/dev/null; rm -f /tmp/seed.evidence.$P.json
 grep -E "VIOLATION|KNOWN-FINDING|\[check\] $P" /tmp/seed.check.log
 echo "CHECK: exit=$rc"
